@@ -406,6 +406,15 @@ static int mode_solve(int cases, int nr_exp)
                o.kv["postSmoothingSteps"].c_str(), o.kv["maxIterations"].c_str(), hex(atof(o.kv["absoluteTolerance"].c_str())).c_str(), hex(atof(o.kv["relativeTolerance"].c_str())).c_str(),
                o.kv["residualNormType"].c_str(), g.numberOfIterations(), hex(g.meanResidualReductionFactor()).c_str(), hex(indep).c_str(), v.norms().empty() ? "-" : hex(v.norms().front()).c_str(), (int)finite, v.norms().size(),
                o.str().c_str(), render_trace(v).c_str());
+        // C01 also holds for a repeated solve() on the same object (no setup() in between): same convergence within the budget
+        if (c % 3 == 0 && atoi(o.kv["maxIterations"].c_str()) >= 100 && extrap != 2) {
+            int it1 = g.numberOfIterations();
+            g.solve();
+            double indep2 = independent_residual_norm(g, v, extrap, atoi(o.kv["residualNormType"].c_str()), rhs0, rhs1);
+            printf("ORC case=%d second_solve_it=%d first_solve_it=%d maxit=%s second_solve_rho=%s indep=%s abstol=%s reltol=%s n0=%s opts=[%s]\n", c, g.numberOfIterations(), it1, o.kv["maxIterations"].c_str(),
+                   hex(g.meanResidualReductionFactor()).c_str(), hex(indep2).c_str(), hex(atof(o.kv["absoluteTolerance"].c_str())).c_str(), hex(atof(o.kv["relativeTolerance"].c_str())).c_str(),
+                   v.norms().empty() ? "-" : hex(v.norms().front()).c_str(), o.str().c_str());
+        }
     }
     printf("end\n");
     return 0;
